@@ -7,7 +7,9 @@ import (
 	"fmt"
 	"iter"
 	"log/slog"
+	"runtime"
 	"sort"
+	"strings"
 	"sync"
 	"testing"
 	"testing/synctest"
@@ -110,6 +112,9 @@ type recState struct {
 	// cmu guards failQ, inject, ncalls and target: the script goroutine and the reconciler's operations
 	// run concurrently inside the bubble
 	cmu sync.Mutex
+	// refreshInj: user writes (do, key in nth) to perform when the refresh loop next calls WriteTxn
+	refreshInj []recInject
+	injecting  bool
 	// commitMu: see emit
 	commitMu sync.RWMutex
 }
@@ -142,7 +147,42 @@ func (st *recState) pendingObj(id uint64, ver int, old *recObj) *recObj {
 }
 
 // onCommit runs at the linearization point of every commit (hook commit.stored, root mutex held).
+// inRefreshLoop reports whether the calling goroutine is the reconciler's refresh loop.
+func inRefreshLoop() bool {
+	pcs := make([]uintptr, 24)
+	n := runtime.Callers(2, pcs)
+	frames := runtime.CallersFrames(pcs[:n])
+	for {
+		f, more := frames.Next()
+		if strings.Contains(f.Function, "refreshLoop") {
+			return true
+		}
+		if !more {
+			return false
+		}
+	}
+}
+
 func (st *recState) onCommit(point string) {
+	if point == "wtxn.begin" {
+		// a user write queued for "the moment the refresh loop asks for the table": it is committed before the
+		// refresh loop gets the lock, i.e. after any decision the loop took without the lock
+		st.cmu.Lock()
+		var inj *recInject
+		if len(st.refreshInj) > 0 && !st.injecting && inRefreshLoop() {
+			inj = &st.refreshInj[0]
+			st.refreshInj = st.refreshInj[1:]
+			st.injecting = true
+		}
+		st.cmu.Unlock()
+		if inj != nil {
+			st.userWrite(inj.do, inj.nth)
+			st.cmu.Lock()
+			st.injecting = false
+			st.cmu.Unlock()
+		}
+		return
+	}
 	if point == "commit.rootlocked" {
 		st.commitMu.Lock()
 		return
@@ -427,6 +467,10 @@ func runRecScript(t *testing.T, sc Script, log *Log) {
 				key := fmt.Sprintf("%s/%d", op.On, op.K)
 				st.cmu.Lock()
 				st.inject[key] = append(st.inject[key], recInject{nth: st.ncalls[key] + op.Nth, do: op.Do})
+				st.cmu.Unlock()
+			case "injectrefresh":
+				st.cmu.Lock()
+				st.refreshInj = append(st.refreshInj, recInject{nth: op.K, do: op.Do})
 				st.cmu.Unlock()
 			case "sleep":
 				time.Sleep(time.Duration(op.Ms) * time.Millisecond)
